@@ -73,9 +73,15 @@ Definition poll_shutdown (s : tx) : tx * unit_result * list twake :=
           UrPending, [])
   | [] =>
     if t_vsock_closed s then (s, UrOk, [])
-    else (upd s (ring s) (cap s) (t_vsock_closed s) (writer_dropped s) true
-              (t_disp_waker s) true (written_without_yield s) (g_written s) (g_removed s),
-          UrPending, [])
+    else if writer_shutdown s then
+      (upd s (ring s) (cap s) (t_vsock_closed s) (writer_dropped s) true
+           (t_disp_waker s) true (written_without_yield s) (g_written s) (g_removed s),
+       UrPending, [])
+    else
+      (* first call: the dispatcher is told (as mark_writer_dropped does); repair of D2 *)
+      (upd s (ring s) (cap s) (t_vsock_closed s) (writer_dropped s) true
+           false true (written_without_yield s) (g_written s) (g_removed s),
+       UrPending, if t_disp_waker s then [TwDispatcher] else [])
   end.
 
 (* Drop for UtpStreamWriteHalf -> mark_writer_dropped *)
